@@ -61,6 +61,74 @@ func ifsOnValue(f *ssa.Function, v ssa.Value) []branch {
 			out = append(out, br)
 		}
 	}
+	// v handed back by a helper (`return v`, `return x, v`, `return cond && v`): branches of the
+	// callers on that result are branches on v. For the `&&` form only the true edge is exact.
+	if vi, ok := v.(ssa.Instruction); ok && regionMode && ifsDepth < 3 {
+		g := vi.Parent()
+		if g != nil && g != f {
+			for _, in := range instrsWhereOne(g, isReturn) {
+				ret := in.(*ssa.Return)
+				for i := range ret.Results {
+					op := retOperand(ret, i)
+					flows := stripValue(op) == v
+					if ph, isPhi := op.(*ssa.Phi); isPhi && !flows {
+						others := true
+						has := false
+						for _, e := range ph.Edges {
+							if stripValue(e) == v {
+								has = true
+							} else if b, isB := constBool(asConst(e)); !isB || b {
+								others = false
+							}
+						}
+						flows = has && others
+					}
+					if !flows {
+						continue
+					}
+					for _, c := range callsIn(f, true) {
+						if c.Common.StaticCallee() != g {
+							continue
+						}
+						call, isCall := c.Instr.(*ssa.Call)
+						if !isCall {
+							continue
+						}
+						var res ssa.Value = call
+						if len(ret.Results) > 1 {
+							res = nil
+							if refs := call.Referrers(); refs != nil {
+								for _, rf := range *refs {
+									if ex, ok := rf.(*ssa.Extract); ok && ex.Index == i {
+										res = ex
+									}
+								}
+							}
+						}
+						if res != nil {
+							ifsDepth++
+							out = append(out, ifsOnValue(f, res)...)
+							ifsDepth--
+						}
+					}
+				}
+			}
+		}
+	}
+	return out
+}
+
+var ifsDepth = 0
+
+func instrsWhereOne(f *ssa.Function, pred func(ssa.Instruction) bool) []ssa.Instruction {
+	var out []ssa.Instruction
+	for _, b := range f.Blocks {
+		for _, in := range b.Instrs {
+			if pred(in) {
+				out = append(out, in)
+			}
+		}
+	}
 	return out
 }
 
@@ -219,10 +287,15 @@ func storesIntoParamIndex(f *ssa.Function, param string) []*ssa.Store {
 // anyInstr finds instructions satisfying pred in f.
 func instrsWhere(f *ssa.Function, pred func(ssa.Instruction) bool) []ssa.Instruction {
 	var out []ssa.Instruction
-	for _, b := range f.Blocks {
-		for _, in := range b.Instrs {
-			if pred(in) {
-				out = append(out, in)
+	for _, g := range append([]*ssa.Function{f}, helpersOf(f)...) {
+		for _, b := range g.Blocks {
+			for _, in := range b.Instrs {
+				if _, isRet := in.(*ssa.Return); isRet && g != f {
+					continue // a helper's return is not a return of f
+				}
+				if pred(in) {
+					out = append(out, in)
+				}
 			}
 		}
 	}
@@ -325,3 +398,5 @@ func trueEdgesOf(f *ssa.Function, v ssa.Value) []edge {
 	}
 	return out
 }
+
+func retOperandSSA(ret *ssa.Return, i int) ssa.Value { return retOperand(ret, i) }
